@@ -169,7 +169,7 @@ def ch_periods(ctx) -> Channel:
     rng = ctx.rng("periods")
     lines, recs = [], []
     with appboot.Clock("2023-01-01T00:00:00Z") as clock, c12_lib.Capture(app) as cap:
-        for _ in range(ctx.scale(110, 1500)):
+        for _ in range(ctx.scale(110, 800)):
             defn = c12_lib.gen_builder_only(rng, app) if rng.random() < .75 else c12_lib.gen_inside(rng, app)
             c12_lib.create(app, defn)
             try:
@@ -405,7 +405,7 @@ def ch_offsets(ctx) -> Channel:
     with appboot.Clock("2024-03-01T10:00:00Z"):
         for stream in c12_lib.STREAMS:
             trk = segchecks.tracks(app, stream)
-            offs = sweep_offsets(trk, ctx.scale(28, 0), rng)
+            offs = sweep_offsets(trk, ctx.scale(28, 200), rng)
             mode = rng.choice(["vod", "live"])
             for t, start_us, ks, below, times in offsets_case(app, client, c12_lib, segwalk, mp4walk, stream, offs, mode):
                 for k, f in ks.items():
@@ -551,7 +551,7 @@ def ch_e2e(ctx) -> Channel:
     rng = ctx.rng("mps_e2e")
     lines, recs = [], []
     with appboot.Clock("2023-01-01T00:00:00Z") as clock:
-        for i in range(ctx.scale(18, 220)):
+        for i in range(ctx.scale(18, 110)):
             defn = c12_lib.gen_inside(rng, app, n_periods=[1, 2, 3, 4, 2, 3, 2][i % 7])
             c12_lib.create(app, defn)
             try:
